@@ -23,6 +23,9 @@ def _solve(job):
     """z3 (in process) and cvc5 (subprocess) race on the same SMT-LIB text; the first definite answer wins."""
     name, idx, smt2, timeout_ms, use_cvc5 = job
     t0 = time.time()
+    if os.environ.get('PYVC_DUMP'):
+        with open(os.path.join(os.environ['PYVC_DUMP'], '%s.%d.smt2' % (name.replace('/', '_').replace(':', '_')[-120:], idx)), 'w') as f:
+            f.write(smt2 + '\n(check-sat)\n')
     out = dict(name=name, idx=idx, status='unknown', backend='z3', model=None, solver_output='')
     proc, path, cvc5_answer = None, None, None
     if use_cvc5:
@@ -197,6 +200,8 @@ def verify_modules(modnames, tier='quick', prop=None, only=None):
                 obls = ex.run()
             except OutsideSubset as e:
                 outside.append('%s: outside the verified subset: %s' % (qual, e))
+                if os.environ.get('PYVC_TRACE'):
+                    traceback.print_exc()
                 continue
             except KeyError as e:
                 errors.append('%s: %s' % (qual, e))
@@ -213,8 +218,13 @@ def verify_modules(modnames, tier='quick', prop=None, only=None):
                                   source_sha1=prog.source_hash(qual) if ct.kind != 'lemma' else None,
                                   loops_with_invariant=sorted(ct.loops), gen_s=round(time.time() - t0, 3)))
             # vacuity: the precondition (with type invariants and axioms) must be satisfiable
+            # ... and so must be at least one path to the normal exit and one path through every loop body
+            seen = collections.Counter()
             for cname, hyps in ex.covers:
-                cover_jobs.append(('%s::cover[%s]' % (qual, cname), 0, to_smt2(list(ex.hyp_axioms) + hyps, z3.BoolVal(False)), 5000, False))
+                seen[cname] += 1
+                if seen[cname] > 3:
+                    continue
+                cover_jobs.append(('%s::cover[%s]' % (qual, cname), seen[cname], to_smt2(list(ex.hyp_axioms) + hyps, z3.BoolVal(False)), 5000, False))
             for name, o in obls.items():
                 obl_meta[name] = dict(name=name, function=qual, kind=o.kind, clause=o.label, clause_text=o.clause_text,
                                       nqueries=len(o.queries), smt2_sample=None)
@@ -242,14 +252,18 @@ def verify_modules(modnames, tier='quick', prop=None, only=None):
                 r['solver_output'] = 'after retry with %d ms: %s' % (retry[0][3], r['solver_output'])
             first = keep + second
         if True:
+            cov = collections.defaultdict(list)
             for r in first:
                 if '::cover[' in r['name']:
-                    # a cover asks for satisfiability: `unsat` means the contract's precondition excludes every input (vacuous proof)
-                    covers.append(dict(name=r['name'], status={'sat': 'satisfiable', 'unsat': 'VACUOUS'}.get(r['status'], 'not refuted (solver: unknown)')))
-                    if r['status'] == 'unsat':
-                        errors.append('%s: precondition unsatisfiable, the proof would be vacuous' % r['name'])
+                    cov[r['name']].append(r['status'])
                     continue
                 results.setdefault(r['name'], []).append(r)
+            for cname, sts in cov.items():
+                # a cover asks for satisfiability: `unsat` on every sampled path means the hypotheses exclude every input (vacuous proof)
+                vac = all(x == 'unsat' for x in sts)
+                covers.append(dict(name=cname, status='VACUOUS' if vac else 'satisfiable' if 'sat' in sts else 'not refuted (solver: unknown)'))
+                if vac:
+                    errors.append('%s: hypotheses unsatisfiable on every path, the proof would be vacuous' % cname)
     obligations = []
     for name, meta in obl_meta.items():
         rs = results.get(name, [])
